@@ -21,14 +21,15 @@ def run : List Action → (String → Int) → List Int × (String → Int)
 
 /-- the predeclared variables among the upvars of a function literal -/
 def predefs (ups : List Upvar) : List String :=
-  ups.filterMap (fun u => match u with | .predef v => some v | .loc => none)
+  ups.filterMap (fun u => match u with | .predef v => some v | .loc _ => none)
 
 /-- the variables referred to somewhere in the emitted code -/
 def referenced : List Event → List String
   | [] => []
-  | .declFunc _ :: es => referenced es
+  | .declFunc _ _ :: es => referenced es
   | .use _ v :: es => v :: referenced es
   | .closure _ _ ups :: es => predefs ups ++ referenced es
-  | .pkgVar _ :: es => referenced es
+  | .pkgVar _ _ :: es => referenced es
+  | .bindImport _ _ _ :: es => referenced es
 
 end ScriggoV.VarStore.Spec
